@@ -4,7 +4,7 @@ from h5harness import *
 
 RULE = ("fault enumeration: an unstorable value (a sequence containing None, which h5py refuses) injected at every position "
         "— each key of attrs, each key of dnplab_attrs, each parameter of each history step, each entry of a workspace "
-        "(data object or plain dictionary) — x {no previous file, previously saved file, existing non-HDF5 file (text / empty)} x {overwrite on, off; given as keyword, positionally, or left to its default}, plus the "
+        "(data object or plain dictionary) — x {no previous file, previously saved file, existing non-HDF5 file (text / empty)} x {overwrite on, off; given as keyword (True/False, 1/0, numpy.bool_, None), positionally, or left to its default}, plus the "
         "fault-free saves, the destination named in other spellings (trailing separator, ./ and ../ segments, doubled separator), and workspace entries that are neither data objects nor dictionaries (array, list, number; first / middle / last); the destination's outcome class (absent / loads equal to the previous content / does not load / "
         "loads something else) and whether save raised are compared with the Lean model of save_h5 and checked against the "
         "property directly; non-trivial = a fault with a previous file present")
@@ -56,7 +56,7 @@ def cases(tier, seed):
                 # the option is given as a keyword, positionally, or (for "do not overwrite") left out — in rotation, so that
                 # calls that name it and calls that rely on the default follow one another in one process
                 nform += 1
-                form = ("kw", "omitted", "positional")[nform % 3]
+                form = ("kw", "omitted", "positional", "kw-int", "kw-npbool", "kw-none")[nform % 6]
                 out.append(dict({"single": m, "prev": prev, "overwrite": ow, "label": "obj:" + label},
                                 **({} if form == "kw" else {"owform": form})))
     # workspace entries: fault in the k-th entry (data object or plain dict)
